@@ -279,4 +279,225 @@ theorem step_decreases {s s' : Sys} {t : Nat} (h : step s t = some s') : measure
     simp only [measure, h1, h2]
     omega
 
+/-- What one step does to the stepping thread's record: the kind is kept; a worker either stays in its
+call, or finishes one call. -/
+theorem stepThr_kind {s s' : Sys} {t : Nat} {th : Thr} (ht : Tear s) (hget : s.thr[t]? = some th)
+    (h : stepThr s t th = some s') :
+    ∃ th', s'.thr = s.thr.set t th' ∧ th'.kind = th.kind ∧ (th.kind = .worker →
+      ((th'.todo = th.todo ∧ th'.results = th.results ∧ th'.pc ≠ .done) ∨
+       (th'.todo = th.todo - 1 ∧ th'.results.length = th.results.length + 1 ∧
+         (th'.pc = .done ↔ th.todo - 1 = 0)))) := by
+  have hnc : closerOnly th.pc = true → th.kind ≠ .worker := by
+    intro hc hk; rw [ht.closerPc _ _ hget hc] at hk; cases hk
+  cases hpc : th.pc with
+  | done => simp [stepThr, hpc] at h
+  | acquire =>
+    cases hl : s.lock with
+    | some x => simp [stepThr, hpc, hl] at h
+    | none =>
+      simp [stepThr, hpc, hl] at h; subst h
+      exact ⟨_, rfl, rfl, fun _ => Or.inl ⟨rfl, rfl, by simp⟩⟩
+  | actLoad =>
+    simp [stepThr, hpc] at h; subst h
+    refine ⟨_, rfl, rfl, fun _ => Or.inl ⟨rfl, rfl, ?_⟩⟩
+    simp only []; split <;> simp
+  | ssHdr k =>
+    cases k with
+    | zero =>
+      simp [stepThr, hpc] at h; subst h
+      exact ⟨_, rfl, rfl, fun _ => Or.inl ⟨rfl, rfl, by simp⟩⟩
+    | succ k =>
+      simp [stepThr, hpc] at h; subst h
+      exact ⟨_, rfl, rfl, fun _ => Or.inl ⟨rfl, rfl, by simp⟩⟩
+  | ssChk =>
+    simp [stepThr, hpc] at h; subst h
+    refine ⟨_, rfl, rfl, fun _ => Or.inl ⟨rfl, rfl, ?_⟩⟩
+    simp only []; split <;> simp
+  | recv =>
+    simp only [stepThr, hpc] at h
+    cases hq : s.q with
+    | cons r q' =>
+      simp [hq] at h; subst h
+      refine ⟨_, rfl, rfl, fun _ => Or.inl ⟨rfl, rfl, ?_⟩⟩
+      simp only []; split <;> simp
+    | nil =>
+      cases hsk : s.sock with
+      | cons r sk =>
+        simp [hq, hsk] at h; subst h
+        refine ⟨_, rfl, rfl, fun _ => Or.inl ⟨rfl, rfl, ?_⟩⟩
+        simp only []; split <;> simp
+      | nil =>
+        simp [hq, hsk] at h; subst h
+        exact ⟨_, rfl, rfl, fun _ => Or.inl ⟨rfl, rfl, by simp⟩⟩
+  | requeue =>
+    simp [stepThr, hpc] at h; subst h
+    exact ⟨_, rfl, rfl, fun _ => Or.inl ⟨rfl, rfl, by simp⟩⟩
+  | release =>
+    simp [stepThr, hpc] at h; subst h
+    refine ⟨_, rfl, rfl, fun hk => Or.inr ⟨?_, by simp [afterCall], ?_⟩⟩
+    · simp [afterCall, hk]
+    · simp only [afterCall, nextPc, hk]
+      split <;> simp_all
+  | kaWait =>
+    have hka := ht.kaPc _ _ hget hpc
+    simp only [stepThr, hpc] at h
+    split at h
+    · simp at h; subst h
+      exact ⟨_, rfl, rfl, fun hk => by rw [hka] at hk; cases hk⟩
+    · split at h
+      · cases h
+      · simp at h; subst h
+        exact ⟨_, rfl, rfl, fun hk => by rw [hka] at hk; cases hk⟩
+  | await =>
+    simp only [stepThr, hpc] at h
+    split at h
+    · simp at h; subst h
+      refine ⟨_, rfl, ?_, fun hk => absurd hk (hnc (by rw [hpc]; rfl))⟩
+      split <;> rfl
+    · cases h
+  | stopSet =>
+    simp [stepThr, hpc] at h; subst h
+    refine ⟨_, rfl, ?_, fun hk => absurd hk (hnc (by rw [hpc]; rfl))⟩
+    split <;> rfl
+  | joinKa =>
+    simp only [stepThr, hpc] at h
+    split at h
+    · simp at h; subst h
+      exact ⟨_, rfl, rfl, fun hk => absurd hk (hnc (by rw [hpc]; rfl))⟩
+    · cases h
+  | chkAct =>
+    simp [stepThr, hpc] at h; subst h
+    refine ⟨_, rfl, ?_, fun hk => absurd hk (hnc (by rw [hpc]; rfl))⟩
+    split <;> rfl
+  | actStore =>
+    simp [stepThr, hpc] at h; subst h
+    exact ⟨_, rfl, rfl, fun hk => absurd hk (hnc (by rw [hpc]; rfl))⟩
+  | _ =>
+    simp [stepThr, hpc] at h; subst h
+    exact ⟨_, rfl, rfl, fun _ => Or.inl ⟨rfl, rfl, by simp⟩⟩
+
+/-- Bookkeeping relative to the initial configuration: the threads keep their kinds, and a worker has
+made exactly the calls it no longer has to make. -/
+structure Acc (c : Cfg) (s : Sys) : Prop where
+  kinds : ∀ (t : Nat), (s.thr[t]?).map (·.kind) = ((init c).thr[t]?).map (·.kind)
+  cnt : ∀ (t : Nat) (th : Thr) (p : Nat × Nat), s.thr[t]? = some th → c.threads[t]? = some p →
+      th.kind = .worker → th.results.length + th.todo = p.1 ∧ (th.pc = .done ↔ th.todo = 0)
+
+theorem init_acc (c : Cfg) : Acc c (init c) := by
+  constructor
+  · intro t; rfl
+  · intro t th p hget hp hk
+    rcases init_get hget with ⟨p', hp', rfl⟩ | ⟨n, _, ht, rfl⟩
+    · rw [hp] at hp'; injection hp' with hp'; subst hp'
+      simp only [initThr] at hk ⊢
+      split at hk
+      · cases hk
+      · rename_i hcl
+        simp only [hcl, if_false]
+        refine ⟨by simp, ?_⟩
+        split <;> simp_all
+    · cases hk
+
+theorem step_acc {c : Cfg} {s s' : Sys} {t : Nat} (ha : Acc c s) (ht : Tear s) (h : step s t = some s') :
+    Acc c s' := by
+  unfold step at h
+  cases hget : s.thr[t]? with
+  | none => simp [hget] at h
+  | some th =>
+    simp [hget] at h
+    obtain ⟨th', h1, hkind, hw⟩ := stepThr_kind ht hget h
+    constructor
+    · intro t'
+      rw [← ha.kinds t', h1, List.getElem?_set]
+      by_cases e : t = t'
+      · subst e
+        have hl : t < s.thr.length := by
+          rcases Nat.lt_or_ge t s.thr.length with h | h
+          · exact h
+          · rw [List.getElem?_eq_none h] at hget; cases hget
+        have hg : s.thr[t] = th := by
+          have := List.getElem?_eq_getElem hl
+          rw [hget] at this; injection this with this; exact this.symm
+        simp [hl, hkind, hg]
+      · simp [e]
+    · intro t' b p hb hp hk
+      rw [h1] at hb
+      rcases get_set_cases hget hb with ⟨rfl, rfl⟩ | ⟨_, hb⟩
+      · rw [hkind] at hk
+        obtain ⟨hcnt, hdone⟩ := ha.cnt _ _ _ hget hp hk
+        have hnd : th.pc ≠ .done := by
+          intro hd; simp [stepThr, hd] at h
+        have h0 : th.todo ≠ 0 := fun h0 => hnd (hdone.mpr h0)
+        rcases hw hk with ⟨e1, e2, e3⟩ | ⟨e1, e2, e3⟩
+        · refine ⟨by rw [e1, e2]; exact hcnt, ?_⟩
+          constructor
+          · intro hd; exact absurd hd e3
+          · intro hz; rw [e1] at hz; exact absurd hz h0
+        · refine ⟨by rw [e1, e2]; omega, ?_⟩
+          rw [e1]; exact e3
+      · exact ha.cnt _ _ _ hb hp hk
+
+/-- All three invariants along any schedule. -/
+theorem run_all {c : Cfg} {s : Sys} (hi : Inv s) (ht : Tear s) (ha : Acc c s) (sched : List Nat) :
+    Inv (run s sched) ∧ Tear (run s sched) ∧ Acc c (run s sched) := by
+  induction sched generalizing s with
+  | nil => exact ⟨hi, ht, ha⟩
+  | cons t rest ih =>
+    simp only [run, List.foldl_cons]
+    cases hs : step s t with
+    | none => exact ih hi ht ha
+    | some s' => exact ih (step_inv hi ht hs).1 (step_inv hi ht hs).2 (step_acc ha ht hs)
+
+theorem init_get_app {c : Cfg} {t : Nat} {p : Nat × Nat} (hp : c.threads[t]? = some p) :
+    (init c).thr[t]? = some (initThr c.closer t p) := by
+  have hlt : t < c.threads.length := by
+    rcases Nat.lt_or_ge t c.threads.length with h | h
+    · exact h
+    · rw [List.getElem?_eq_none h] at hp; cases hp
+  have hg : c.threads[t] = p := by
+    have := List.getElem?_eq_getElem hlt
+    rw [hp] at this; injection this with this; exact this.symm
+  simp [init, List.getElem?_append, hlt, hg]
+
+/-- In a state where no thread can move, every thread is finished (the keep-alive loop: finished or
+asleep for good), each call made returned the reply to the datagram that same thread transmitted, and
+every application thread other than the closing one has made all the calls it was asked to make. -/
+theorem terminal_complete {c : Cfg} {s : Sys} (hi : Inv s) (ht : Tear s) (ha : Acc c s)
+    (hterm : ∀ t, step s t = none) :
+    (∀ (t : Nat) (th : Thr), s.thr[t]? = some th → parked s th ∧
+      ∀ r ∈ th.results, ∃ n, r = .ok n n ∧ sentBy s.wireChron t n = true) ∧
+    (∀ (t : Nat) (p : Nat × Nat), c.threads[t]? = some p → c.closer ≠ some t →
+      ∃ th, s.thr[t]? = some th ∧ th.pc = .done ∧ th.results.length = p.1) := by
+  have hpark : ∀ (t : Nat) (th : Thr), s.thr[t]? = some th → parked s th := by
+    intro t th hget
+    apply Classical.byContradiction
+    intro hnp
+    obtain ⟨t1, h1⟩ := deadlock_free hi ht hget hnp
+    rw [hterm t1] at h1
+    cases h1
+  constructor
+  · intro t th hget
+    refine ⟨hpark t th hget, ?_⟩
+    intro r hr
+    obtain ⟨n, h1, h2⟩ := hi.res t _ hget r hr
+    exact ⟨n, h1, by rw [Sys.wireChron, sentBy_reverse]; exact h2⟩
+  · intro t p hp hnc
+    have hk := ha.kinds t
+    rw [init_get_app hp] at hk
+    cases hget : s.thr[t]? with
+    | none => rw [hget] at hk; cases hk
+    | some th =>
+      rw [hget] at hk
+      simp only [Option.map_some, Option.some.injEq] at hk
+      have hw : th.kind = .worker := by
+        rw [hk]; simp only [initThr]; rw [if_neg (fun h => hnc h)]
+      have hd : th.pc = .done := by
+        rcases hpark t th hget with h | ⟨h, _⟩
+        · exact h
+        · have := ht.kaPc _ _ hget h
+          rw [hw] at this; cases this
+      obtain ⟨hcnt, hdone⟩ := ha.cnt t th p hget hp hw
+      have := hdone.mp hd
+      exact ⟨th, rfl, hd, by omega⟩
+
 end PyIpmi.Threads
